@@ -760,4 +760,40 @@ pub fn _hb_clear_substitution_flags(
 #[allow(unused_imports, dead_code, missing_docs)]
 pub mod verif_hooks {
     use super::*;
+
+    /// Runs the GSUB part of a plan on an injected buffer (optionally after `substitute_start`).
+    pub fn gsub_apply(
+        face: &hb_font_t,
+        plan: &hb_ot_shape_plan_t,
+        buffer: &mut hb_buffer_t,
+        substitute_start: bool,
+    ) {
+        if substitute_start {
+            hb_ot_layout_substitute_start(face, buffer);
+        }
+        apply_layout_table(plan, face, buffer, face.gsub.as_ref());
+    }
+
+    /// (stage, lookup index, mask, auto_zwnj, auto_zwj, random, per_syllable) of every planned lookup.
+    pub fn plan_lookups(
+        plan: &hb_ot_shape_plan_t,
+        gpos: bool,
+    ) -> alloc::vec::Vec<(usize, u16, u32, bool, bool, bool, bool)> {
+        let t = if gpos { TableIndex::GPOS } else { TableIndex::GSUB };
+        let mut v = alloc::vec::Vec::new();
+        for (stage_index, _) in plan.ot_map.stages(t).iter().enumerate() {
+            for l in plan.ot_map.stage_lookups(t, stage_index) {
+                v.push((
+                    stage_index,
+                    l.index,
+                    l.mask,
+                    l.auto_zwnj,
+                    l.auto_zwj,
+                    l.random,
+                    l.per_syllable,
+                ));
+            }
+        }
+        v
+    }
 }
